@@ -21,9 +21,11 @@
 #include "stir/CartesianCoordinate3D.h"
 #include "stir/ProjDataInMemory.h"
 #include "stir/ProjDataInterfile.h"
+#include "stir/ProjDataFromStream.h"
 #include "stir/ExamInfo.h"
 #include "stir/SegmentByView.h"
 #include "stir/Viewgram.h"
+#include "stir/Sinogram.h"
 #include "stir/Succeeded.h"
 #include "stir/is_null_ptr.h"
 #include "stir/num_threads.h"
@@ -588,6 +590,61 @@ static void wl_scat(const Cfg& c) {
   out_fx("scatter", pd_vals(*out));
 }
 
+// (d) one Interfile data set (ProjDataFromStream) read and written concurrently through its public interface
+static void wl_io(const Cfg& c) {
+  shared_ptr<ExamInfo> ex = make_exam();
+  shared_ptr<ProjDataInfo> pdi = make_pdi(c);
+  vh::Rng rng(c.data_seed);
+  shared_ptr<ProjData> pd = make_projdata(c, ex, pdi, true);
+  fill_projdata(*pd, rng, 0, 200, 0.125F);
+  struct Item { int op, view, seg, ax, tof; };
+  std::vector<Item> work;
+  const int nwork = 500;
+  for (int i = 0; i < nwork; ++i) {
+    Item it;
+    it.op = rng.range(0, 2);
+    it.seg = rng.range(0, pdi->get_max_segment_num());          // segments >= 0 are only read in the parallel loop
+    it.view = rng.range(pdi->get_min_view_num(), pdi->get_max_view_num());
+    it.ax = rng.range(pdi->get_min_axial_pos_num(it.seg), pdi->get_max_axial_pos_num(it.seg));
+    it.tof = rng.range(pdi->get_min_tof_pos_num(), pdi->get_max_tof_pos_num());
+    work.push_back(it);
+  }
+  // every viewgram of the negative segments is written exactly once (by whichever thread takes the item)
+  for (int s = pdi->get_min_segment_num(); s < 0; ++s)
+    for (int v = pdi->get_min_view_num(); v <= pdi->get_max_view_num(); ++v)
+      for (int k = pdi->get_min_tof_pos_num(); k <= pdi->get_max_tof_pos_num(); ++k)
+        work.insert(work.begin() + rng.range(0, (int)work.size()), Item{ 3, v, s, 0, k });
+  std::vector<double> dig(work.size() * 2, 0.);
+  mark("io");
+#pragma omp parallel for schedule(dynamic, 1)
+  for (int i = 0; i < (int)work.size(); ++i) {
+    const Item& it = work[i];
+    double sum = 0, wsum = 0;
+    int n = 0;
+    if (it.op == 0) {
+      const Viewgram<float> vg = pd->get_viewgram(it.view, it.seg, false, it.tof);
+      for (auto x = vg.begin_all_const(); x != vg.end_all_const(); ++x) { sum += *x; wsum += *x * (1 + (n++ % 7)); }
+    } else if (it.op == 1) {
+      const Sinogram<float> sg = pd->get_sinogram(it.ax, it.seg, false, it.tof);
+      for (auto x = sg.begin_all_const(); x != sg.end_all_const(); ++x) { sum += *x; wsum += *x * (1 + (n++ % 7)); }
+    } else if (it.op == 2) {
+      // (ProjDataFromStream::get_bin_value / set_bin_value have no critical section and are not used by the
+      //  operations of the property: not called concurrently here)
+      const SegmentByView<float> sv = pd->get_segment_by_view(it.seg, it.tof);
+      for (auto x = sv.begin_all_const(); x != sv.end_all_const(); ++x) { sum += *x; wsum += *x * (1 + (n++ % 7)); }
+    } else {
+      Viewgram<float> vg = pd->get_empty_viewgram(it.view, it.seg, false, it.tof);
+      for (auto x = vg.begin_all(); x != vg.end_all(); ++x) *x = (float)((i * 31 + n++) % 512) * 0.25F;
+      if (pd->set_viewgram(vg) != Succeeded::yes) error("set_viewgram failed");
+      sum = n;
+    }
+    dig[(size_t)i * 2] = sum; dig[(size_t)i * 2 + 1] = wsum;
+  }
+  mark("end");
+  out_fx("io.read", dig);
+  out_fx("io.content", pd_vals(*pd));
+}
+
 static int objs_of(const std::string& wl) { return wl == "lazy" ? 1 : 0; }
 // number of cached matrix objects the calls can reach: the objective functions clone the back projector (and
 // with it the matrix) for the sensitivity when the data are TOF
@@ -603,6 +660,7 @@ static void run_workload(const Cfg& c) {
   else if (c.wl == "ll") wl_ll(c);
   else if (c.wl == "lm") wl_lm(c);
   else if (c.wl == "scat") wl_scat(c);
+  else if (c.wl == "io") wl_io(c);
 }
 
 // configuration of instance `inst` of workload `wl`
@@ -635,6 +693,7 @@ static Cfg make_cfg(const std::string& wl, long inst, long round, uint64_t seed,
   if (wl == "lazy") { c.geom = round % 2 == 1 ? "BlocksOnCylindrical" : "Cylindrical"; c.span = 1; c.maxDelta = c.R - 1; c.mash = 1; c.maxT = 0; c.tofMash = 0;
     if (c.geom != "Cylindrical") c.N = rng.coin() ? 16 : 24;
     c.numTang = c.N - 1; }
+  if (wl == "io") { c.file_io = true; }
   if (wl == "scat") { c.N = rng.coin() ? 16 : 24; c.R = 2; c.numTang = 7; c.use_cache = rng.range(0, 3) != 0; c.maxT = 0; c.tofMash = 0; }
   if (wl == "lm") { c.mash = 1; c.span = 1; c.maxDelta = c.R - 1; c.file_io = false; c.subsets = ((c.N / 2) % 4 == 0 && rng.coin()) ? 2 : 1; if (c.N > 12 || c.R > 2) c.basic_only = true; }
   return c;
@@ -703,7 +762,7 @@ int main(int argc, char** argv) {
   const std::string path = argv[2], scratch = argv[3];
   const long ninst = atol(argv[4]);
   const int reps = atoi(argv[5]), size = atoi(argv[6]);
-  std::vector<std::string> wls = { "lazy", "rows", "proj", "ll", "lm", "scat" };
+  std::vector<std::string> wls = { "lazy", "rows", "proj", "ll", "lm", "scat", "io" };
   if (argc > 7) {
     wls.clear();
     std::string s = argv[7], cur;
